@@ -48,20 +48,36 @@ def probe_sites(fx, callees, crates=None):
 
 
 def run_swallow(fx, crates=None, cfgname="A"):
-    table = load_table()
+    """Error-blind probes are acceptable only in the front end's validation prefix (before the thread that runs
+    the copy is spawned): there a swallowed stat error can only add or skip a rejection -- nothing has been
+    created, the walker re-decides the mapping with fallible probes and CopyHandle::new refuses an inode-identical
+    destination.  Anywhere else (libxcp, libfs, after the copy has started) they are reported."""
+    import views
+    from cfg import cfg_of
+    import q
+    from names import MAIN, SPAWN
     obs = []
+    allowed_sites = set()       # (origin fn, file, line) of probes lying in main's prefix
+    mv = views.main_view(fx) if MAIN in fx.fns else None
+    if mv is not None:
+        cfg = cfg_of(mv)
+        sp = [bi for bi, t in q.calls_to(mv, SPAWN)]
+        for bi, t in mv.calls():
+            o = callee_orig(t)
+            if o in ERROR_BLIND and not span_excluded(t["span"]):
+                if sp and not any(cfg.dominates(s_, bi) for s_ in sp):
+                    allowed_sites.add((t["span"]["file"], t["span"]["line"], o))
     for f, bi, t, o, n in probe_sites(fx, ERROR_BLIND, crates):
         key = mkkey("R-PROBE", f.path, o, n)
         loc = "%s:%d" % (t["span"]["file"], t["span"]["line"])
-        e = table.get(key)
-        if e is not None and e.get("swallow_ok"):
+        ok = (t["span"]["file"], t["span"]["line"], o) in allowed_sites and f.crate == "xcp"
+        if ok:
             obs.append(Ob("R-PROBE", key, True, loc, f.path,
-                          "error-blind probe feeds: %s; tabled harmless because: %s" % (e["feeds"], e["swallow_ok"]),
-                          cfg=cfgname))
+                          "error-blind probe `%s` lies in the validation prefix of main (nothing created yet; a swallowed "
+                          "error only adds/skips a rejection that the walker re-decides)" % o.split("::")[-1], cfg=cfgname))
         else:
             obs.append(Ob("R-PROBE", key, False, loc, f.path,
-                          "unclassified error-blind probe `%s`: a failed stat is read as 'absent/not a directory' "
-                          "and silently changes the decision it feeds" % o.split("::")[-1],
-                          dict(callee=o, note="use a fallible (l)stat and propagate, or table the site with a reason"),
-                          cfg=cfgname))
+                          "error-blind probe `%s` outside the front end's validation prefix: a failed stat is read as "
+                          "'absent/not a directory' and silently changes the decision it feeds" % o.split("::")[-1],
+                          dict(callee=o, note="use a fallible (l)stat and propagate"), cfg=cfgname))
     return obs
